@@ -217,7 +217,11 @@ let gen_mode seed tier out =
   ignore (next ());
   let oc = open_out out in
   let per = if tier = "thorough" then 24 else 10 in
+  let extras = ref false in
   List.iter (fun (name, ss) ->
+      (* the stand-alone variant members share their wire shapes with the variant types: fewer seeds *)
+      if name = "StakeRegistration" then extras := true;
+      let per = if !extras then max 3 (per / 3) else per in
       List.iteri (fun si s ->
         let n = if si = 0 then per else max 2 (per / 3) in
         for i = 0 to n - 1 do
@@ -367,20 +371,23 @@ let run_mode () = run_driver (fun toks impl ->
   | "dec" :: name :: h :: _ ->
     let bs = bytes_of_hex h in
     let p = predict_dec name bs in
-    (* every CBOR reader of the library consumes exactly one data item and every byte of it: an input whose first
-       item is not well-formed CBOR (Item.v) must be an error (the schema decoder rejects it as well) *)
-    let p = if p = "any" && not (first_item_wf bs) then "err" else p in
-    (* the lenient acceptor of Total/Lax.v accepts every byte form the readers tolerate: what it refuses is an error.
-       Recursive types are schemas unrolled to a depth: Plutus data / metadata are unrolled to 300 levels for this test
-       (their unrolling shares the sub-schema, so this is cheap); the types that contain native scripts stay at the
-       table's depth and the refusal is only trusted for inputs nested at most 8 deep (4 script levels need 9) *)
-    let p = if p = "any" && not (List.mem name lax_exceptions) then begin
+    (* Error predictions for inputs no exact model speaks about:
+       (i) the lenient acceptor of Total/Lax.v accepts every byte form the readers tolerate (in particular only
+           well-formed CBOR): what it refuses is an error.  Recursive types are schemas unrolled to a depth: Plutus
+           data / metadata are unrolled to 300 levels for this test (their unrolling shares the sub-schema, so this is
+           cheap); the types that contain native scripts stay at the table's depth and the refusal is only trusted
+           for inputs nested at most 8 deep (4 script levels need 9);
+       (ii) for the types without a schema: every CBOR reader of the library consumes exactly one data item and every
+           byte of it, so an input whose first item is not well-formed CBOR (Cbor/Item.v) is an error *)
+    let p = if p <> "any" then p else begin
         match (match List.assoc_opt name deep_table with Some ss -> Some (ss, true) | None ->
                (match List.assoc_opt name table with Some ss -> Some (ss, false) | None -> None)) with
-        | Some (ss, deep_ok) when not (List.exists (fun s -> accepts s bs) ss) ->
-          if deep_ok || int_of_nat (input_depth bs) <= 8 then "err" else p
-        | _ -> p
-      end else p in
+        | Some (ss, deep_ok) when not (List.mem name lax_exceptions) ->
+          if List.exists (fun s -> accepts s bs) ss then p
+          else if deep_ok || int_of_nat (input_depth bs) <= 8 then "err"
+          else if not (first_item_wf bs) then "err" else p
+        | _ -> if not (first_item_wf bs) then "err" else p
+      end in
     (p, verdict_str true bs impl)
   | "raw" :: name :: h :: _ -> let bs = bytes_of_hex h in (predict_raw name bs, verdict_str false bs impl)
   | "hex" :: name :: h :: _ ->
